@@ -5,3 +5,15 @@ def group_gap(xx, groups, grp, nodata, a, b):
     """Positions a..b-1 do not carry label grp: group sum/count are flat over the gap."""
     for s in range(a, b):
         pass
+
+
+def tiesum_zero(xu, x, n, m):
+    """if every distinct value occurs exactly once the tie correction vanishes"""
+    for s in range(0, m):
+        pass
+
+
+def pb_mono(n, i):
+    """rows of the pair enumeration do not overlap: the cells of row a end before row i starts (a < i)"""
+    for s in range(0, i):
+        pass
